@@ -54,7 +54,9 @@ def _stmt(i, n, ref):
         pre = "" if pk in _packs_done else "n %d pack2 in=%s,%s\n" % (pk, ref(n["ins"][0]), ref(n["ins"][1]))
         _packs_done.add(pk)
         return pre + "n %d elem in=%d i=%d" % (i, pk, 0 if n["kind"] == "elem0" else 1)
-    s = "n %d %s" % (i, PASSIVE_USAGE.get(n["kind"], n["kind"]))
+    if n["kind"] in ("lradd", "lrmin", "lrmax"):
+        kv.append("comb=" + n["kind"][2:])
+    s = "n %d %s" % (i, "lred" if n["kind"] in ("lradd", "lrmin", "lrmax") else PASSIVE_USAGE.get(n["kind"], n["kind"]))
     if kv:
         s += " " + " ".join(kv)
     if n["ins"]:
